@@ -13,6 +13,7 @@ CLAIM = (
     "joins with `or` the un-negated consequent, in that order; add/sub emit + and -; the Python Transpiler implements every node kind; "
     "(3) the invariant description reaches the generated Error through wrap_text_into_lines and string_literal, all segments emitted; "
     "(4) no error of the transpilation is dropped (ERR1-3 over python/transpilation.py and python/lib/_generate_verification.py)."
+    " ENCLOSE (shared with C19/C20): the literal parts of a Python f-string are escaped for the one quote character that encloses the joined text."
 )
 NOTE = (
     "Trusted base: Python's own ast._fields (the grammar) for (1); the operator oracle table. Not decided: that verification reports "
